@@ -45,7 +45,9 @@ class Canon:
                             else:
                                 val.pop(m.id, None)
                                 count[m.id] = count.get(m.id, 0) + 1
-        return {k: v for k, v in val.items() if count.get(k) == 1 and k not in exclude}
+        # a definition that reads the name it defines (`x = f(x)`: re-binding of a parameter / earlier value) is not an alias
+        return {k: v for k, v in val.items() if count.get(k) == 1 and k not in exclude and
+                not any(isinstance(n_, ast.Name) and n_.id == k for n_ in ast.walk(v))}
 
     def expand(self, e: ast.AST, depth: int = 0) -> ast.AST:
         if depth > 8:
